@@ -177,6 +177,12 @@ def generate(rng, tier):
         rng.shuffle(order)
         sig = ('mix', any(m['ucs2'] for m in msgs), any(m['payload'] for m in msgs), 10, k, order_class(order), False)
         yield from history('interleaved', msgs, order, sig)
+    # 3b. two 16-bit references that share the low octet, interleaved
+    for lo in (0x34, 0x00, 0xFF):
+        msgs = [dict(ref=0x1200 + lo, pieces=mk_pieces(3, True, rng, 'pairs'), transport='udh16', ucs2=True, payload=False),
+                dict(ref=0x5600 + lo, pieces=mk_pieces(4, False, rng, 'plain'), transport='udh16', ucs2=False, payload=False)]
+        order = [(0, 0), (1, 3), (0, 2), (1, 0), (1, 1), (0, 1), (1, 2)]
+        yield from history('lowbyte', msgs, order, ('udh16', True, False, 4, 2, 'other', False))
     # 4. duplicates (outside the statement; correspondence only)
     for _ in range(40 if thorough else 15):
         n = rng.randrange(2, 6)
